@@ -123,6 +123,25 @@ func vrtAcceptLarge(typ byte) {
 	vrtReach("C04.large")
 }
 
+// H04b_truncated_large: the same packets with the last 1..4 bytes missing (cap == len): the
+// announced remaining length exceeds what is there, so every decoder must refuse - without
+// touching anything behind the input (round-8 change C04-16: a bound check in header.decode that
+// is too lenient by the size of the length field only shows for remaining lengths >= 128).
+func H04b_truncated_large() {
+	types := []byte{3, 8, 9, 10}
+	typ := types[vrtChoice("type", len(types))]
+	p := vrtLargePacket(typ)
+	full := specEncode(p)
+	cut := 1 + vrtChoice("cut", 4)
+	in := make([]byte, len(full)-cut)
+	copy(in, full)
+	m := vrtNewOf(typ)
+	n, err := m.Decode(in)
+	vrtAssert("C04.truncated_refused", err != nil)
+	vrtAssert("C04.n_range", vrtAnd(n >= 0, n <= len(in)))
+	vrtReach("C04.large")
+}
+
 func H04b_publish_large()     { vrtAcceptLarge(3) }
 func H04b_subscribe_large()   { vrtAcceptLarge(8) }
 func H04b_suback_large()      { vrtAcceptLarge(9) }
